@@ -261,7 +261,20 @@ impl<'a> Walk<'a> {
                 self.keywords_seen.borrow_mut().insert(lo.to_string());
                 let got_m = po.get(lo).and_then(|v| v.as_f64());
                 let got_ex = po.get(xlo) == Some(&Value::Bool(true));
-                if got_m != Some(m) || got_ex != ex {
+                // whole numbers are compared exactly (an i64 next to 2^63 and the f64 2^63 are equal as f64)
+                let exact = |v: &Value| -> Option<i128> {
+                    if let Some(i) = v.as_i64() {
+                        Some(i as i128)
+                    } else if let Some(u) = v.as_u64() {
+                        Some(u as i128)
+                    } else {
+                        v.as_f64().filter(|f| f.fract() == 0.0 && f.abs() < 1e37).map(|f| f as i128)
+                    }
+                };
+                let want_exact = io.get(lo).filter(|v| v.is_number()).or_else(|| io.get(xlo).filter(|v| v.is_number())).and_then(exact);
+                let got_exact = po.get(lo).and_then(exact);
+                let exact_differs = matches!((want_exact, got_exact), (Some(a), Some(b)) if a != b);
+                if got_m != Some(m) || got_ex != ex || exact_differs {
                     self.problems.borrow_mut().push(format!("{}: bound {} = {} (exclusive {}) became {:?} (exclusive {})", path, lo, m, ex, po.get(lo), got_ex));
                 }
             }
